@@ -261,6 +261,7 @@ type Script struct {
 type Config struct {
 	Scripts []Script `json:"scripts"`
 	Retain  bool     `json:"retain"`
+	How     string   `json:"how"` // none | testwork | workdirroot
 }
 
 func render(sc Script, prog string) string {
@@ -372,7 +373,10 @@ func runBatch(mode string, cfg Config, strat vsched.Strategy) *RunRec {
 	cwd0, _ := os.Getwd()
 	env0 := strings.Join(os.Environ(), "\n")
 	p := testscript.Params{Dir: sdir, Cmds: b.cmds()}
-	if cfg.Retain {
+	if cfg.How == "workdirroot" {
+		p.WorkdirRoot = filepath.Join(gotmp, "given-root")
+		os.MkdirAll(p.WorkdirRoot, 0o777)
+	} else if cfg.Retain {
 		p.TestWork = true
 	}
 	vos.SetInterceptor(b)
